@@ -126,6 +126,8 @@ def correspondence(rep, rng, tier):
                                 {'section': 'host-vs-darwin', 'case': c, 'table': tname, 'code': code})
     if rep.broken or tier == 'thorough':       # the theorems rule a new dependence out; search only when they no longer check
         targeted_search(rep, diffs, tier, ht)
+        if rep.broken and not any(f['signature'].startswith('host:new-dependence') for f in rep.failures):
+            pairwise_search(rep, diffs, ht)
     # every decoder on random windows under both hosts: differences only where a known reader meets a differing code
     known_errno = set()
     from pykdebugparser.trace_handlers.bsd import handlers as bsd_handlers
@@ -223,6 +225,48 @@ def targeted_search(rep, diffs, tier, ht):
             else:
                 continue
             break
+
+
+def pairwise_search(rep, diffs, ht):
+    """Two cooperating words: for the UNTRANSLATED decoders (the translator met a construct outside its subset, so the
+    theorems say nothing about them) sweep a single flag bit in every START word against every differing errno /
+    signal code, plain and negated, in the END error and return words."""
+    st = D.stats()
+    hand = set(candidates()) & set(st['unsupported'])
+    sec = rep.section('new-dependence-pairs')
+    sec['rule'] = 'untranslated decoders x (START position x single bit 0..31) x (END word 0/1 x +-code for differing codes)'
+    ref = {'errno': DARWIN_ERRNO, 'signals': DARWIN_SIGNALS}
+    codes = sorted({c for t in ref for c in diffs[t]})[:80]
+    ends = [c for c in codes] + [(1 << 64) - c for c in codes] + [(1 << 32) - c for c in codes]
+    for n in sorted(hand):
+        found = False
+        for pos in range(4):
+            for bit in range(32):
+                for epos in (1, 0):
+                    for ev in ends:
+                        c = demo_case(n, start=[2, 1, 0, 6], end=[0, 1, 2, 3])
+                        c['start'][pos] |= 1 << bit
+                        c['end'][epos] = ev
+                        a = run(c)
+                        with darwin_host():
+                            b = run(c)
+                        sec['cases'] += 1
+                        if a != b:
+                            from pykdebugparser.trace_handlers.bsd import handlers as bsd_handlers
+                            if n in bsd_handlers and epos == 0 and ht['errno'].get(ev) != DARWIN_ERRNO.get(ev):
+                                continue          # the error word of a result part: K2a
+                            sec['distinct_nontrivial'] += 1
+                            rep.add_failure('host:new-dependence:' + n,
+                                            'decoder %s renders %r on this host and %r with Darwin tables' % (n, a, b),
+                                            {'section': 'new-dependence-pairs', 'case': c})
+                            found = True
+                            break
+                    if found:
+                        break
+                if found:
+                    break
+            if found:
+                break
 
 
 def replay(path):
